@@ -1,9 +1,9 @@
 SPECIFICATION Spec
 CONSTANTS
-  TorrentSeq <- T1
-  NClients = 2
-  Choices <- ChoicesAll1
-  BgSeq <- BgOne
+  TorrentSeq <- T2
+  NClients = 1
+  Choices <- ChoicesAll
+  BgSeq <- BgAll
   Fixed = {"StartAll", "StopAll", "resolveAndAddPeer", "moveTorrent", "reserveID", "cleanLive", "compactLocks", "dhtDropOnStop"}
   Budget = 1
   Allowed <- AnyPick
